@@ -23,8 +23,8 @@ open CamVerif CamVerif.Cache
 
 /-- Port; a NoCache selector; two overlapping IntRegs (WriteThrough / WriteAround) that list
 each other; two StructReg entries (same address, disjoint bit fields) that list each other;
-a selector-addressed register with stride = length listing the port (it may point anywhere);
-an Integer and a Command on top. -/
+a selector-addressed register with stride = length listing the port;
+an Integer (pValue + one pValueCopy) and a Command on top. -/
 def exGraph : Graph :=
   [ .port,
     .reg ⟨.int .le .unsigned, 0, none, 1, .noCache, .rw, [], 0⟩,
@@ -33,7 +33,7 @@ def exGraph : Graph :=
     .reg ⟨.masked .le .unsigned 0 3, 12, none, 1, .writeThrough, .rw, [5, 6], 0⟩,
     .reg ⟨.masked .le .unsigned 4 7, 12, none, 1, .writeThrough, .rw, [4, 6], 0⟩,
     .reg ⟨.raw, 2, some (1, 2), 2, .writeThrough, .rw, [0], 0⟩,
-    .integer 3,
+    .integer 3 [1],
     .command 7 5 ]
 
 def exDev : Dev :=
@@ -51,6 +51,30 @@ example : Declared Profile.dev exGraph := by decide
 example : Declared Profile.release exGraph := by decide
 example : HistOk exGraph exHist1 ∧ HistOk exGraph exHist2 ∧ HistOk exGraph exHist3 := by
   refine ⟨?_, ?_, ?_⟩ <;> intro n a d h <;> simp [exHist1, exHist2, exHist3] at h
+
+/-- A selector-addressed register (selector = 1-byte unsigned IntReg, stride 4 = length, so
+it never clashes with itself) only has to declare the registers its address hull
+`[16, 16 + 255*4 + 4)` can meet: node 3 at address 20 yes, the selector itself (address 0) and
+node 4 (address 8) no.  In the release profile addresses may wrap, so there it must declare all. -/
+def exGraph2 : Graph :=
+  [ .port,
+    .reg ⟨.int .le .unsigned, 0, none, 1, .writeThrough, .rw, [], 0⟩,
+    .reg ⟨.int .le .unsigned, 16, some (1, 4), 4, .writeThrough, .rw, [3], 0⟩,
+    .reg ⟨.int .le .unsigned, 20, none, 4, .writeAround, .rw, [2], 0⟩,
+    .reg ⟨.int .le .unsigned, 8, none, 2, .writeThrough, .rw, [], 0⟩ ]
+
+example : Declared Profile.dev exGraph2 := by decide
+example : ¬ Declared Profile.release exGraph2 := by decide
+
+/-- the same register read at two selector positions, the selector switched in between
+(cache keyed by address): the third read of the register is a hit -/
+example :
+    let h : List Op := [.value 2, .setValue 1 (.int 1), .value 2, .setValue 1 (.int 0), .value 2]
+    let d : Dev := ⟨[0, 0, 0, 0, 0, 0, 0, 0, 0, 0, 0, 0, 0, 0, 0, 0, 1, 0, 0, 0, 2, 0, 0, 0], [], [], [], 0, []⟩
+    (runHist defaultCache Profile.dev exGraph2 (initDefault exGraph2 d) h).1 =
+        [.ok (.int 1), .ok .unit, .ok (.int 2), .ok .unit, .ok (.int 1)] ∧
+      (runHist defaultCache Profile.dev exGraph2 (initDefault exGraph2 d) h).2.dev.log.length = 5 := by
+  decide +kernel
 
 /-- dropping one sibling declaration is detected -/
 example : ¬ Declared Profile.dev
